@@ -11,6 +11,8 @@ sys.path.insert(0, VERIF)
 import checklib as cl  # noqa: E402
 import extract  # noqa: E402
 import correspond as co  # noqa: E402
+import pyfloat as pf  # noqa: E402
+import sexpr  # noqa: E402
 
 LEAN = cl.LEAN
 
@@ -1839,6 +1841,264 @@ def c08_extra(ctx):
     return {'violations': v}
 
 
+# ---------------------------------------------------------------------------------------------------
+# C15: printing
+# ---------------------------------------------------------------------------------------------------
+
+def _ceil_fmt(q, fmt):
+    """Smallest positive value of the format that is >= the rational q, as (m, e) with m of p bits."""
+    import math
+    p, _ = pf.FMT[fmt]
+    e = q.numerator.bit_length() - q.denominator.bit_length()
+    while Fraction(2) ** e > q:
+        e -= 1
+    while Fraction(2) ** (e + 1) <= q:
+        e += 1
+    sc = Fraction(2) ** (e - (p - 1))
+    m = math.ceil(q / sc)
+    if m == 1 << p:
+        m >>= 1
+        e += 1
+    return m, e - (p - 1)
+
+
+def _norm(m, e, fmt):
+    p, _ = pf.FMT[fmt]
+    while m.bit_length() < p:
+        m <<= 1
+        e -= 1
+    return m, e
+
+
+def _step(m, e, k, fmt):
+    """k-th neighbour (k may be negative) of the normal number m*2^e (m of p bits)."""
+    p, _ = pf.FMT[fmt]
+    for _ in range(abs(k)):
+        if k > 0:
+            m += 1
+            if m == 1 << p:
+                m >>= 1
+                e += 1
+        else:
+            if m == 1 << (p - 1):
+                m = (1 << p) - 1
+                e -= 1
+            else:
+                m -= 1
+    return m, e
+
+
+def print_inputs(ctx, n_near, n_rand):
+    """(fmt, neg, m, e) values: neighbourhoods of every cascade threshold, a log-uniform stream over the
+    printable range, random bit patterns over the whole exponent range, extremes."""
+    rng = random.Random(ctx.seed + 15)
+    vals = []
+    for fmt in (32, 64, 80):
+        p, emax = pf.FMT[fmt]
+        cents = []
+        for k in range(-3, 5):
+            q = Fraction(10) ** k
+            cents.append(_ceil_fmt(q, fmt))
+            if k < 0:   # the double literal of the source, as seen by this format
+                d = pf.round_to(q, 64)
+                cents.append(_ceil_fmt(d, fmt))
+        for (m, e) in cents:
+            for k in range(-n_near, n_near + 1):
+                mm, ee = _step(m, e, k, fmt)
+                vals.append((fmt, rng.random() < 0.3, mm, ee))
+        for _ in range(n_rand):
+            ex = rng.uniform(-7, 8)
+            q = Fraction(10) ** int(ex) * Fraction(rng.getrandbits(70) | (1 << 70), 1 << 70)
+            r = pf.round_to(q, fmt)
+            m, e = _norm(r.numerator, -(r.denominator.bit_length() - 1), fmt)
+            vals.append((fmt, rng.random() < 0.3, m, e))
+        for _ in range(n_rand):
+            m = (1 << (p - 1)) | rng.getrandbits(p - 1)
+            e = rng.randrange(1 - emax, emax + 1) - (p - 1)
+            vals.append((fmt, rng.random() < 0.3, m, e))
+        vals += [(fmt, False, 0, 0), (fmt, True, 0, 0), (fmt, False, 1 << (p - 1), 1 - emax - (p - 1)),
+                 (fmt, False, (1 << p) - 1, emax - (p - 1)), (fmt, True, 1 << (p - 1), -(p - 1))]
+    return vals
+
+
+def run_print_driver(lines):
+    import subprocess
+    pm = subprocess.run(['lake', 'env', 'lean', '--run', 'PrintDriver.lean'], cwd=LEAN,
+                        input=''.join(l + '\n' for l in lines), stdout=subprocess.PIPE, stderr=subprocess.PIPE,
+                        text=True)
+    if pm.returncode != 0:
+        raise co.HarnessError('PrintDriver failed: ' + pm.stderr[-2000:])
+    return pm.stdout.splitlines()
+
+
+def real_print(ctx, items):
+    """items: [(fmt, neg, m, e)] -> texts of PhQ::Print on the real code."""
+    outl, rc, err = textio(ctx, ['print %d %s' % (f, co.hex_of(n, m, e)) for (f, n, m, e) in items])
+    if rc != 0 or len(outl) != len(items):
+        raise co.HarnessError('textio print failed rc=%s: %s' % (rc, err))
+    return [bytes.fromhex(h).decode('utf-8', 'replace') if h != '-' else '' for h in outl]
+
+
+def str_printer(ctx):
+    def f(keys):
+        items = []
+        for (fmt, t) in keys:
+            if t in ('nan', 'inf', '-inf') or t.startswith('libm'):
+                items.append(None)
+                continue
+            ms, es = t.split()
+            items.append((fmt, ms.startswith('-'), abs(int(ms)), int(es)))
+        texts = real_print(ctx, [i for i in items if i is not None])
+        it = iter(texts)
+        return {k: next(it) for k, i in zip(keys, items) if i is not None}
+    return f
+
+
+def is_serial_entry(e):
+    m = e['meta']
+    return (m['kind'] == 'method' and m.get('name') in ('Print', 'JSON', 'XML', 'YAML')) or m['kind'] == 'stream'
+
+
+def c15_correspond(ctx):
+    quick = ctx.tier == 'quick'
+    # (a) the number printer: model text == real text; real parse-back == x; model parse of random decimals
+    vals = print_inputs(ctx, 30 if quick else 900, 250 if quick else 6000)
+    texts = real_print(ctx, vals)
+    model = run_print_driver(['p %d %s' % (f, co.lean_tok(n, m, e)) for (f, n, m, e) in vals])
+    dis = []
+    for v, t, ml in zip(vals, texts, model):
+        mt = ml.split('\t')[0]
+        if mt != t:
+            dis.append({'id': 'PhQ::Print', 'fmt': v[0], 'detail': 'Print(%s): real %r, model %r' % (co.hex_of(*v[1:]), t, mt),
+                        'native_request': 'print %d %s' % (v[0], co.hex_of(*v[1:])),
+                        'lean_request': 'p %d %s' % (v[0], co.lean_tok(*v[1:])), 'native': t, 'lean': ml, 'value': v})
+    rng = random.Random(ctx.seed + 151)
+    decs = []
+    for _ in range(200 if quick else 4000):
+        nd = rng.randrange(1, 26)
+        digits = ''.join(rng.choice('0123456789') for _ in range(nd))
+        pos = rng.randrange(0, nd + 1)
+        body = (digits[:pos] or '0') + ('.' + digits[pos:] if pos < nd else '')
+        if rng.random() < 0.6:
+            body += 'e%+d' % rng.randrange(-45, 45)
+        decs.append((rng.choice((32, 64, 80)), ('-' if rng.random() < 0.3 else '') + body))
+    outl, rc, err = textio(ctx, ['num %d %s' % (f, hexs(t)) for f, t in decs])
+    mparse = run_print_driver(['n %d %s' % (f, t) for f, t in decs])
+    for (f, t), real, mod in zip(decs, outl, mparse):
+        rc_ = 'none' if not real.startswith('some ') else co.canon_of_hex(real[5:])
+        if rc_ != mod:
+            dis.append({'id': 'PhQ::ParseNumber', 'fmt': f, 'detail': 'ParseNumber<%d>(%r): real %s, model %s' % (f, t, rc_, mod),
+                        'native_request': 'num %d %s' % (f, hexs(t)), 'lean_request': 'n %d %s' % (f, t),
+                        'native': real, 'lean': mod})
+    res = {'lines': len(vals) + len(decs), 'slots_exact': len(vals) + len(decs), 'slots_libm': 0,
+           'disagreements': dis, 'crashes': [] if len(model) == len(vals) and len(mparse) == len(decs) else [
+               {'model_lines': len(model), 'wanted': len(vals)}],
+           'exponent_histogram': {'print values': len(vals), 'decimal texts parsed': len(decs)},
+           'sample_lines': [{'request': 'p %d %s' % (vals[3][0], co.lean_tok(*vals[3][1:])), 'lean': model[3] if len(model) > 3 else None,
+                             'native': texts[3]}]}
+    # (b) composite forms: the traced strings, with the real printer's text substituted, against the real strings
+    sel = [e for e in ctx.model if not e['meta']['cls'].startswith(('unit:', 'model:')) and is_serial_entry(e)]
+    if quick:
+        r2 = random.Random(ctx.seed + 152)
+        keep = [e for e in sel if not e['meta'].get('unit')]
+        rest = [e for e in sel if e['meta'].get('unit')]
+        sel = keep + r2.sample(rest, min(len(rest), 250))
+    comp = co.correspond(ctx.cache, LEAN, sel, ctx.seed + 153, per_entry=1 if quick else 4,
+                         str_printer=str_printer(ctx))
+    res['lines'] += comp['lines']
+    res['slots_exact'] += comp['slots_exact']
+    res['disagreements'] += comp['disagreements']
+    res['crashes'] += comp['crashes']
+    res['exponent_histogram']['composite-form lines'] = comp['lines']
+    return res
+
+
+def build_printsweep(ctx):
+    import subprocess
+    src = os.path.join(cl.VERIF, 'harness', 'printsweep.cpp')
+    exe = os.path.join(ctx.cache, 'printsweep')
+    if not os.path.exists(exe) or os.path.getmtime(exe) < os.path.getmtime(src):
+        p = subprocess.run(['g++', '-std=c++17', '-O2', '-fno-fast-math', '-ffp-contract=off', '-w', '-I', '/repo/include',
+                            src, '-o', exe], stdout=subprocess.PIPE, stderr=subprocess.STDOUT, text=True)
+        if p.returncode != 0:
+            raise co.HarnessError('printsweep does not compile: ' + p.stdout[-3000:])
+    return exe
+
+
+def c15_classify(fmt, hexval):
+    """Is the failing long double inside one of the gaps [10^-k, (double)10^-k)?"""
+    x = abs(sexpr.hex_to_fraction(hexval))
+    for k in (1, 2, 3):
+        lo = Fraction(1, 10 ** k)
+        hi = pf.round_to(lo, 64)
+        if lo <= x < hi:
+            return 'long-double-in-[10^-%d,(double)10^-%d)' % (k, k)
+    return 'elsewhere'
+
+
+def c15_search(ctx, failing, corr, broken):
+    """Sweep the real PhQ::Print / ParseNumber: digit count, notation, parse-back identity. Quick: threshold
+    neighbourhoods and random values in all three types; thorough: all 2^32 float patterns as well."""
+    import subprocess
+    from concurrent.futures import ThreadPoolExecutor
+    exe = build_printsweep(ctx)
+    tail = []
+    for k in (1, 2, 3):
+        m, e = _ceil_fmt(Fraction(1, 10 ** k), 80)
+        tail.append('0x%xp%d' % (m, e))
+    quick = ctx.tier == 'quick'
+    jobs = []
+    for fmt in (32, 64, 80):
+        jobs.append(['near', str(fmt), '1200' if quick else '20000'])
+        for j in range(2 if quick else 8):
+            jobs.append(['random', str(fmt), str(ctx.seed * 100 + j), '150000' if quick else '2000000'])
+    if not quick:
+        step = 1 << 26
+        for lo in range(0, 1 << 32, step):
+            jobs.append(['range', hex(lo), hex(lo + step)])
+
+    def run(job):
+        p = subprocess.run([exe] + job + tail, stdout=subprocess.PIPE, stderr=subprocess.PIPE, text=True)
+        return job, p.returncode, p.stdout
+    with ThreadPoolExecutor(max_workers=16) as ex:
+        results = list(ex.map(run, jobs))
+    out = []
+    seen = set()
+    totals = {'checked': 0, 'digits': 0, 'notation': 0, 'roundtrip': 0, 'zero': 0}
+    for job, rc, txt in results:
+        if rc != 0 or 'DONE' not in txt:
+            out.append({'kind': 'c15-sweep-crash', 'job': job, 'returncode': rc, 'what': 'printsweep died: ' + txt[-500:]})
+            continue
+        for line in txt.splitlines():
+            if line.startswith('DONE'):
+                for kv in line.split()[2:]:
+                    k, v = kv.split('=')
+                    totals[k] += int(v)
+            elif line.startswith('FAIL'):
+                _, kind, fmt, hx, text = line.split(' ', 4)
+                where = c15_classify(int(fmt), hx)
+                key = (kind, fmt, where)
+                if key in seen:
+                    continue
+                seen.add(key)
+                out.append({'kind': 'c15-' + kind, 'fmt': int(fmt), 'where': where, 'value': hx, 'printed': text,
+                            'what': 'PhQ::Print(%s) at %s bits gives %r: wrong %s' % (hx, fmt, text, {
+                                'digits': 'number of significant digits', 'notation': 'notation for its interval',
+                                'roundtrip': '(does not parse back to the same number)', 'zero': 'text for zero'}[kind]),
+                            'replay_cmd': 'printsweep near %s 2000' % fmt})
+    ctx.c15_totals = totals
+    for d in (corr or {}).get('disagreements', [])[:3]:
+        if d['id'].startswith('PhQ::'):
+            continue
+        out.append({'kind': 'c15-composite', 'entry': d['id'], 'fmt': d['fmt'], 'what': d['detail'],
+                    'native_request': d['native_request']})
+    return out
+
+
+def c15_extra(ctx):
+    return {'coverage': {'print_sweep_on_real_code': getattr(ctx, 'c15_totals', {})}}
+
+
 def quantity_corr(pred, seed_off, per_quick=2, per_thorough=30):
     def f(ctx):
         sel = [e for e in ctx.model if not e['meta']['cls'].startswith(('unit:', 'model:')) and pred(e)]
@@ -1894,6 +2154,27 @@ SPECS = {
                         'Core/Atoms.lean: 364 atoms with SI/NIST definitional constants)',
                         'std::unordered_map::find behaves as association-list lookup (checked on all keys, mutated '
                         'keys and random byte strings by the correspondence)'],
+    },
+    'C15': {
+        'id': 'C15', 'level': 'proof',
+        'lean_targets': ['PhQVerif.Audit.C15'],
+        'checkers': [('C15serial', 'Generated.Serial.rows'), ('C15stream', 'Generated.Streams.rows')],
+        'correspond': c15_correspond,
+        'search': c15_search,
+        'always_search': True,
+        'extra': c15_extra,
+        'assumptions': [
+            'PhQ::Print is modelled by hand (Core/Print.lean: interval cascade + the contract of a correctly rounding '
+            'printf / strtod); the model is compared text for text with the real PhQ::Print and PhQ::ParseNumber '
+            '(libstdc++/glibc) on threshold neighbourhoods and random values of all three types',
+            'lossless printing and the scientific digit count are proved for all normal numbers; the fixed-notation '
+            'digit count is proved up to a proviso (fixed_digits_partial) that the real-code sweep checks: '
+            'exhaustively for float in the thorough tier',
+            'composite forms are translated from the code (traced strings); JSON validity is proved for the '
+            'skeleton with number text substituted; that Print emits JSON-grammar numbers for finite values is '
+            'checked on the real output',
+        ],
+        'trusted_extra': ['glibc printf/strtod family correctly rounded (validated against the model, not proved)'],
     },
     'C10': {
         'id': 'C10', 'level': 'proof',
